@@ -324,6 +324,23 @@ func TestRestoreCases(t *testing.T) {
 				_ = os.Truncate(outPath, 0)
 			case "chmod":
 				_ = os.Chmod(outPath, mode^0111)
+			case "modify-chmod": // other content (same length) under the other mode
+				_ = os.WriteFile(outPath, []byte(strings.Repeat("Z", len(c.F.Content))), mode)
+				_ = os.Chmod(outPath, mode^0111)
+			case "longer-chmod": // longer content under the other mode
+				_ = os.WriteFile(outPath, []byte(c.F.Content+"ZZZZ"), mode)
+				_ = os.Chmod(outPath, mode^0111)
+			case "dir-where-file":
+				_ = os.Remove(outPath)
+				_ = os.MkdirAll(filepath.Join(outPath, "inner"), 0755)
+				_ = os.WriteFile(filepath.Join(outPath, "inner", "x"), []byte("x"), 0644)
+			case "symlink-to-sibling":
+				_ = os.Remove(outPath)
+				_ = os.WriteFile(outPath+".sibling", []byte("sibling"), 0644)
+				_ = os.Symlink(filepath.Base(outPath)+".sibling", outPath)
+			case "dangling-symlink":
+				_ = os.Remove(outPath)
+				_ = os.Symlink("nowhere", outPath)
 			default:
 				t.Fatalf("unknown file prior %q", c.Prior)
 			}
@@ -334,6 +351,11 @@ func TestRestoreCases(t *testing.T) {
 			}
 			if got := listing(outPath); got != want {
 				fails = append(fails, failure{"file-restore-inexact:" + c.Prior, string(name), want, got})
+			}
+			if c.Prior == "symlink-to-sibling" {
+				if b, _ := os.ReadFile(outPath + ".sibling"); string(b) != "sibling" {
+					fails = append(fails, failure{"file-restore-writes-through-symlink", string(name), "sibling file untouched", string(b)})
+				}
 			}
 		}
 	}
